@@ -171,7 +171,7 @@ def run(ctx):
             for ops in itertools.product(OPS, repeat=L):
                 cases.append({'env': env, 'argv': argv, 'ops': [list(o) for o in ops] + [['decorate']]})
     # ... and random longer ones, kernprof's hook included
-    for i in range(200 if ctx.quick else 3000):
+    for i in range(200 if ctx.quick else 15000):
         r = ctx.rng.fork('h%d' % i)
         ops = [list(r.choice(OPS + OPS + KOPS)) for _ in range(r.below(8) + 2)]
         cases.append({'env': r.choice(ENVS), 'argv': r.choice(ARGVS), 'ops': ops})
